@@ -14,6 +14,7 @@ CONSTANTS
   FixLeave = %(fl)s
   FixWrap = %(fw)s
   FixDead = %(fd)s
+  FixAdopt = TRUE
   MaxTry = 3
   TrackCov = FALSE
   Goal = "none"
